@@ -98,8 +98,8 @@ theorem getLast?_drop_ne {rest : Bytes} {n : Nat} (hn : n < rest.length) :
 /-- P3 (lockstep form): rejection is stable under extension, given no dangling CR (or no limit) -/
 theorem parseLoop_append_error {limit : Option Nat} {f : Nat} {hs : List Header}
     {rest : Bytes} {off : Nat} {e : HErr}
-    (h : parseLoop limit f hs rest off = .error e)
-    (hcr : limit = none ∨ rest.getLast? ≠ some CR) (d : Bytes) :
+    (h : parseLoop limit f hs rest off = .error e) (d : Bytes)
+    (hcr : limit = none ∨ rest.getLast? ≠ some CR ∨ d.head? ≠ some LF) :
     ∃ e', parseLoop limit f hs (rest ++ d) off = .error e' := by
   induction f generalizing hs rest off with
   | zero => simp [parseLoop] at h
@@ -107,7 +107,7 @@ theorem parseLoop_append_error {limit : Option Nat} {f : Nat} {hs : List Header}
     unfold parseLoop at h ⊢
     split at h
     · rename_i e1 he
-      obtain ⟨e', he'⟩ := headerStep_append_error he hcr d
+      obtain ⟨e', he'⟩ := headerStep_append_error d he hcr
       exact ⟨e', by rw [he']⟩
     · simp at h
     · simp at h
@@ -116,9 +116,10 @@ theorem parseLoop_append_error {limit : Option Nat} {f : Nat} {hs : List Header}
       rw [headerStep_append_field hf d]; simp only
       rw [drop_append_of_le (by omega) d]
       apply ih h
-      rcases hcr with h1 | h1
+      rcases hcr with h1 | h1 | h1
       · exact Or.inl h1
-      · right; rw [getLast?_drop_ne (by omega)]; exact h1
+      · right; left; rw [getLast?_drop_ne (by omega)]; exact h1
+      · right; right; exact h1
 
 /-- P2: an incomplete run can be resumed: running on the extended buffer from the start equals
     resuming from the returned state on the unconsumed rest plus the new bytes -/
@@ -167,10 +168,11 @@ theorem Headers.parse_append_complete {limit : Option Nat} {hs hs' : List Header
   exact this
 
 theorem Headers.parse_append_error {limit : Option Nat} {hs : List Header} {raw : Bytes} {e : HErr}
-    (h : Headers.parse limit hs raw = .error e) (hcr : limit = none ∨ raw.getLast? ≠ some CR) (d : Bytes) :
+    (h : Headers.parse limit hs raw = .error e) (d : Bytes)
+    (hcr : limit = none ∨ raw.getLast? ≠ some CR ∨ d.head? ≠ some LF) :
     ∃ e', Headers.parse limit hs (raw ++ d) = .error e' := by
   unfold Headers.parse at h ⊢
-  obtain ⟨e', he'⟩ := parseLoop_append_error h hcr d
+  obtain ⟨e', he'⟩ := parseLoop_append_error h d hcr
   refine ⟨e', ?_⟩
   have := parseLoop_fuel_mono_error he' d.length
   rw [show (raw ++ d).length + 1 = raw.length + 1 + d.length by simp; omega]
